@@ -63,7 +63,7 @@ impl TryFrom<&ctehexml::CtehexmlData> for Model {
         let cons = cons_from_bdl(bdl, &id_maps)?;
         let spaces = spaces_from_bdl(bdl, &id_maps)?;
         let walls = walls_from_bdl(bdl, &id_maps)?;
-        let (windows, shades) = windows_and_shades_from_bdl(bdl, &walls, &id_maps);
+        let (windows, shades) = windows_and_shades_from_bdl(bdl, &walls, &id_maps)?;
         let thermal_bridges = thermal_bridges_from_bdl(bdl);
 
         // Completa metadatos desde ctehexml y el bdl
@@ -307,14 +307,17 @@ fn windows_and_shades_from_bdl(
     bdl: &Data,
     walls: &[Wall],
     id_maps: &IdMaps,
-) -> (Vec<Window>, Vec<Shade>) {
+) -> Result<(Vec<Window>, Vec<Shade>), Error> {
     //TODO: falta por trasladar la definición de lamas (louvres)
     let mut windows = vec![];
     let mut shades = vec![];
 
     for win in &bdl.windows {
         let id = uuid_from_obj(win);
-        let wall = walls.iter().find(|w| w.name == win.wall).unwrap();
+        let wall = walls
+            .iter()
+            .find(|w| w.name == win.wall)
+            .ok_or_else(|| format_err!("Opaco {} del hueco {} no encontrado", win.wall, win.name))?;
 
         // Definición del hueco
         let window = Window {
@@ -417,7 +420,7 @@ fn windows_and_shades_from_bdl(
     let othershades = shades_from_bdl(bdl);
     shades.extend_from_slice(&othershades);
 
-    (windows, shades)
+    Ok((windows, shades))
 }
 
 /// Construye puentes térmicos de la envolvente a partir de datos BDL
